@@ -244,7 +244,12 @@ func genPredefConfig(g *Gen, cids []string) (yaml string, opts []string, merged 
 				put(cid, id, nm)
 				n++
 			}
-			if n == 0 {
+			if n == 0 && g.Bool(0.5) {
+				// an empty section (everything commented out): a client with no entries of its own
+				if merged[cid] == nil {
+					merged[cid] = map[uint16]string{}
+				}
+			} else if n == 0 {
 				fmt.Fprintf(&sb, "  9: filler/%s\n", strings.Trim(cid, "*"))
 				put(cid, 9, "filler/"+strings.Trim(cid, "*"))
 			}
@@ -289,6 +294,21 @@ func genPredefConfig(g *Gen, cids []string) (yaml string, opts []string, merged 
 			opts = append(opts, fmt.Sprintf("%s;%s;%d", cid, nm, id))
 		}
 		put(cid, id, nm)
+		// the same entry once more for one client: redundant at this point, not once the file's entry for
+		// that client or a later every-client option comes into play
+		if cid == "*" && g.Bool(0.3) {
+			c2 := cids[g.Intn(len(cids))]
+			dup2 := false
+			for oid, on := range merged[c2] {
+				if on == nm && oid != id {
+					dup2 = true
+				}
+			}
+			if !dup2 {
+				opts = append(opts, fmt.Sprintf("%s;%s;%d", c2, nm, id))
+				put(c2, id, nm)
+			}
+		}
 	}
 	return
 }
@@ -478,6 +498,19 @@ func genC31(g *Gen, idx int) *Plan {
 	}
 	flag(4, dtls, "dtls", "DTLS_ENABLED", "")
 	flag(8, insecure, "insecure", "INSECURE", "")
+	// a boolean option that is off may also be *given* as off: present is not the same as true
+	offForm := func(bit int, on bool, name, env string) {
+		if on || !g.Bool(0.4) {
+			return
+		}
+		if viaEnv&bit != 0 {
+			cp.Env[env] = []string{"0", "false", "F"}[g.Intn(3)]
+		} else {
+			args = append(args, "--"+name+"=false")
+		}
+	}
+	offForm(4, dtls, "dtls", "DTLS_ENABLED")
+	offForm(8, insecure, "insecure", "INSECURE")
 	cp.HasUser = cred && tool != "bisquitt"
 	cp.Refuse = cred && !dtls && !insecure
 	cfg := Config{RetryDelayMs: 10000, RetryCount: 4, HorizonMs: 6000}
@@ -505,6 +538,6 @@ func init() {
 		Gen:    genC30, Oracle: oracleC30, Quick: 240, Thorough: 6000,
 		Assumptions: []string{"signals, setuid, syslog and DTLS are not simulated; flags reaching them are never generated", "one fresh worker process per run (urfave/cli keeps flag state in the global Application)"}})
 	Register(&Check{ID: "C31", Level: "fault_enumeration", CLI: true,
-		Rule:   "all 16 combinations of {auth|user, password, dtls, insecure} x 16 ways of giving each as command-line flag or environment variable, for bisquitt, bisquitt-pub and bisquitt-sub (768 configurations; quick runs a 360-run prefix): refusal iff (auth|user) and not dtls and not insecure, nothing on the wire when refusing (--dtls without certificates stops at the certificate check: DTLS itself is not simulated); every fourth run is the library half: a client with/without user under CONNECT loss so that retries happen - no AUTH without user, AUTH right after every CONNECT with one; non-trivial = every run",
+		Rule:   "all 16 combinations of {auth|user, password, dtls, insecure} x 16 ways of giving each as command-line flag or environment variable, for bisquitt, bisquitt-pub and bisquitt-sub (768 configurations; quick runs a 360-run prefix; a boolean that is off is in 40 % of the cases given explicitly as off, --insecure=false / INSECURE=0): refusal iff (auth|user) and not dtls and not insecure, nothing on the wire when refusing (--dtls without certificates stops at the certificate check: DTLS itself is not simulated); every fourth run is the library half: a client with/without user under CONNECT loss so that retries happen - no AUTH without user, AUTH right after every CONNECT with one; non-trivial = every run",
 		Gen:    genC31, Oracle: oracleC31, Quick: 480, Thorough: 1100})
 }
